@@ -212,6 +212,28 @@ Proof.
   apply bound_retained. exact B.
 Qed.
 
+(* every delivered data message fits the limit (inflated size for compressed ones) *)
+Hypothesis decomp_cap : forall cx d cap out cx', cap <> 0 -> decomp cx d cap = DOk out cx' -> lenN out <= cap.
+
+Lemma inflate_request_bounded cx assembled :
+  match decomp cx (assembled ++ WS_DEFLATE_TRAILING) (inflate_cap mx) with
+  | DOk out _ => lenN out <= mx + 1
+  | _ => True
+  end.
+Proof.
+  destruct (decomp _ _ _) as [out cx'| |] eqn:E; try exact I.
+  apply decomp_cap in E; unfold inflate_cap in *; destruct (mx =? 0) eqn:E0; lia.
+Qed.
+
+End Mem.
+
+Section NoFrag.
+Variable Cx : Type.
+Variable decomp : Cx -> bytes -> N -> dres Cx.
+Variable c : cfg.
+Notation rstate := (rstate Cx).
+Ltac break_if := match goal with |- context[if ?b then _ else _] => destruct b eqn:? end.
+
 (* ---- no fragment entry outlives its frame (independent of max_msg_size) ------------------------- *)
 Definition nofrag (s : rstate) : Prop :=
   match s_phase s with RP => True | _ => s_nfrags s = 0 end.
@@ -265,20 +287,7 @@ Proof.
   unfold nofrag in B. destruct (s_phase s); try exact B. congruence.
 Qed.
 
-(* every delivered data message fits the limit (inflated size for compressed ones) *)
-Hypothesis decomp_cap : forall cx d cap out cx', cap <> 0 -> decomp cx d cap = DOk out cx' -> lenN out <= cap.
-
-Lemma inflate_request_bounded cx assembled :
-  match decomp cx (assembled ++ WS_DEFLATE_TRAILING) (inflate_cap mx) with
-  | DOk out _ => lenN out <= mx + 1
-  | _ => True
-  end.
-Proof.
-  destruct (decomp _ _ _) as [out cx'| |] eqn:E; try exact I.
-  apply decomp_cap in E; unfold inflate_cap in *; destruct (mx =? 0) eqn:E0; lia.
-Qed.
-
-End Mem.
+End NoFrag.
 
 (* the toy codec obeys the output-cap law (so the inflation theorem is not vacuous) *)
 Lemma lenN_repeat (a : N) k : lenN (repeat a (N.to_nat k)) = k.
